@@ -119,6 +119,8 @@ fn check_roundtrip(m: &Mat, p: &mut Probe) -> Check {
 pub enum Mutation {
     DeleteToken(u16),
     DuplicateToken(u16),
+    /// a copy of the token is appended to the end of its line (a repeat with other tokens in between)
+    AppendCopy(u16),
     ReplaceToken(u16, String),
     DropLine(u16),
     DuplicateLine(u16),
@@ -171,6 +173,7 @@ fn mutation() -> impl Strategy<Value = Mutation> {
     prop_oneof![
         2 => any::<u16>().prop_map(Mutation::DeleteToken),
         2 => any::<u16>().prop_map(Mutation::DuplicateToken),
+        1 => any::<u16>().prop_map(Mutation::AppendCopy),
         5 => (any::<u16>(), replacement()).prop_map(|(a, s)| Mutation::ReplaceToken(a, s)),
         2 => any::<u16>().prop_map(Mutation::DropLine),
         1 => any::<u16>().prop_map(Mutation::DuplicateLine),
@@ -239,6 +242,14 @@ pub fn render(case: &TextCase) -> String {
                             if i > 0 {
                                 let t = lines[i][j].clone();
                                 lines[i].insert(j, t);
+                            }
+                        }
+                    }
+                    Mutation::AppendCopy(a) => {
+                        if let Some((i, j)) = locate(idx(*a, ntok), &lines) {
+                            if i > 0 {
+                                let t = lines[i][j].clone();
+                                lines[i].push(t);
                             }
                         }
                     }
@@ -345,6 +356,14 @@ pub fn check_text_str(text: &str, p: &mut Probe) -> Check {
             }
             // parsed => re-written text parses to the same matrix
             let again = guarded(|| h.alist()).map_err(|e| Fail::new("writer-panic", format!("alist() of a parsed matrix panicked: {e}; input {text:?}")))?;
+            // the parsed object is a proper binary matrix: no position twice, and its text is a
+            // well-formed alist of exactly that set
+            let all: Vec<(usize, usize)> = h.iter_all().collect();
+            ensure!(all.len() == sparse_set(h).len(), "parsed-duplicates", "the parsed matrix lists {} entries but has {} distinct ones (a position is stored twice); input {text:?}", all.len(), sparse_set(h).len());
+            match strict_alist(&again, Some(true)) {
+                Ok(back) => ensure!(back.rows == m && back.cols == n && back.set() == sparse_set(h), "rewrite-format", "alist() of the parsed matrix describes another matrix; input {text:?}"),
+                Err(e) => return Err(Fail::new("rewrite-format", format!("alist() of the parsed matrix is not a well-formed alist ({e}); input {text:?}\noutput:\n{again}"))),
+            }
             let h2 = SparseMatrix::from_alist(&again).map_err(|e| Fail::new("rewrite", format!("re-written text rejected: {e}")))?;
             ensure!(sparse_set(&h2) == sparse_set(h), "rewrite", "re-written text parses to another matrix");
         }
@@ -466,7 +485,7 @@ pub fn property() -> Property {
             }),
             Box::new(Sub {
                 name: "totality",
-                rule: "texts: valid alists (own writer) under 0..=3 token/line/byte-level mutations (delete/duplicate/replace token by 0, small numbers, other spellings (00, +0, 000, -0, 07, +7), 1000001, -1, +3, letters, 1.5, 30-digit and 2^64 numbers; drop/duplicate/swap lines; truncate at any byte; CRLF; tabs; trailing blanks), token soups behind a numeric header, raw digit/space/newline strings, arbitrary Unicode strings (alone or behind a small numeric header), non-ASCII replacement tokens (no-break / em space, full-width and Arabic-Indic digits, combining accent, 4-byte character); declared dimensions kept <= 80 by construction; oracle: from_alist never panics, Ok(h) has the declared dimensions and in-range entries and re-writes to a text that parses to the same matrix, and any text the own strict reader accepts must be accepted with exactly that matrix; non-trivial = mutated text that gets past the header",
+                rule: "texts: valid alists (own writer) under 0..=3 token/line/byte-level mutations (delete/duplicate/append a copy at the end of the line/replace token by 0, small numbers, other spellings (00, +0, 000, -0, 07, +7), 1000001, -1, +3, letters, 1.5, 30-digit and 2^64 numbers; drop/duplicate/swap lines; truncate at any byte; CRLF; tabs; trailing blanks), token soups behind a numeric header, raw digit/space/newline strings, arbitrary Unicode strings (alone or behind a small numeric header), non-ASCII replacement tokens (no-break / em space, full-width and Arabic-Indic digits, combining accent, 4-byte character); declared dimensions kept <= 80 by construction; oracle: from_alist never panics, Ok(h) has the declared dimensions and in-range entries, stores no position twice, and re-writes to a well-formed alist (own strict reader) of the same matrix, and any text the own strict reader accepts must be accepted with exactly that matrix; non-trivial = mutated text that gets past the header",
                 cases: |t| t.pick(1_000_000, 30_000_000),
                 strategy: text_strategy,
                 check: check_text,
